@@ -292,9 +292,23 @@ def analyse(ctx):
             never.add(n_)
         if rs == "bool" and b_["arg_count"] == 2 and all(b_["locals"][i]["s"].endswith("[u8]") for i in (1, 2)):
             never.add(n_)
-    inl = helper_inline(ctx, never=never)
+    inl0 = helper_inline(ctx, never=never)
     from . import bodyrules as _BR
     xadt = _BR.find_exactlen(ctx)[0]
+    # crate-private constructors of the public body type (`Body::exact_len(len, stream)`, `Body::multipart(..)`) are wrappers
+    # around the stream constructors: expanded, so that what they build is seen where it is built
+    try:
+        _benum = _BR.find_bodystream(ctx)[0]["path"]
+        _body_ty = {a["path"] for a in ctx.facts.adts.values() if a["local"] and a["kind"] == "struct" and
+                    any(f["ty"].startswith(_benum) for f in a["variants"][0]["fields"]) and "Proj" not in a["path"]}
+    except Exception:
+        _body_ty = set()
+    _body_ctors = {n_ for n_, b_ in ctx.facts.bodies.items() if b_["kind"] in ("fn", "assocfn") and b_["locals"][0]["s"].split("<")[0] in _body_ty and
+                   (ctx.facts.fns.get(n_, {}).get("impl_self") or "").split("<")[0] in _body_ty and not ctx.facts.fns.get(n_, {}).get("impl_trait") and
+                   ctx.facts.fns.get(n_, {}).get("vis") != "Public"}
+
+    def inl(c, d, inl0=inl0, _body_ctors=_body_ctors):
+        return inl0(c, d) or (c.get("res_path") in _body_ctors)
     _EXACTLEN_CTORS.clear()
     for n_, b_ in ctx.facts.bodies.items():
         f_ = ctx.facts.fns.get(n_, {})
